@@ -231,6 +231,13 @@ var Features = []Feature{
 			FKs:    []FK{fkTo("fk_x_t", []string{"t_id"}, "t", []string{"id"}, "", "SET NULL")},
 			Checks: []Check{{Name: "x_note", Expr: "note <> ''"}}})
 	}},
+	// a created table whose UNIQUE constraint is backed by an engine-named auto index.
+	{Name: "table_y_inline_unique", Apply: func(d *DB) {
+		d.Tables = append(d.Tables, &Table{Name: "y",
+			Cols: []Col{{Name: "id", Type: "integer", NotNull: true}, {Name: "code", Type: "text", NotNull: true}},
+			PK:   []string{"id"},
+			Idx:  []Idx{{Name: "y_code", Unique: true, Parts: []Part{{Col: "code"}}, Inline: true}}})
+	}},
 	{Name: "without_rowid", NeedsPK: true, Apply: func(d *DB) { d.Table("t").WithoutRowID = true }},
 	{Name: "strict", Apply: func(d *DB) { d.Table("t").Strict = true }},
 }
